@@ -77,3 +77,25 @@ Theorem c06_open_never_panics_never_hangs :
   (forall n, open_model sha256 sha512 hmac256 kdf outer_dec decompress gunzip lex keystream other_formats file elements <> Panic n) /\
   open_model sha256 sha512 hmac256 kdf outer_dec decompress gunzip lex keystream other_formats file elements <> OutOfFuel.
 Proof. exact open_model_never_panics_never_hangs. Qed.
+
+(* ---------------- the legacy readers end to end (format/KdbOpen.v, Kdbx3Open.v) ---------------- *)
+From KP Require Import KdbOpen Kdbx3Open.
+Theorem c06_kdb_open_total :
+  forall (sha256 : bytes -> bytes) (kdf : kdfcfg -> bytes -> bytes -> Kdbx4.res bytes)
+         (outer_dec : ocipher -> bytes -> bytes -> bytes -> Kdbx4.res bytes)
+         (data : bytes) (elements : outcome Key.keyerr (list bytes)),
+  good elements -> (forall k s c, good (kdf k s c)) -> (forall c k iv d, good (outer_dec c k iv d)) ->
+  good (kdb_open sha256 kdf outer_dec data elements).
+Proof. exact kdb_open_total. Qed.
+
+Theorem c06_kdbx3_open_never_panics_never_hangs :
+  forall (sha256 : bytes -> bytes) (kdf : kdfcfg -> bytes -> bytes -> Kdbx4.res bytes)
+         (outer_dec : ocipher -> bytes -> bytes -> bytes -> Kdbx4.res bytes)
+         (decompress : compression -> bytes -> Kdbx4.res bytes)
+         (gunzip : bytes -> option bytes) (lex : bytes -> list ev) (keystream : icipher -> bytes -> bytes)
+         (file : bytes) (elements : outcome kerr (list bytes)),
+  good elements -> (forall k s c, good (kdf k s c)) -> (forall c k iv p, good (outer_dec c k iv p)) ->
+  (forall z p, good (decompress z p)) ->
+  (forall n, open3_model sha256 kdf outer_dec decompress gunzip lex keystream file elements <> Panic n) /\
+  open3_model sha256 kdf outer_dec decompress gunzip lex keystream file elements <> OutOfFuel.
+Proof. exact open3_never_panics_never_hangs. Qed.
